@@ -286,7 +286,7 @@ func ipText(r *vh.Rand, v6 bool) string {
 }
 
 func portText(r *vh.Rand) string {
-	return r.Pick("80", "443", "65535", "0", "", "-1", "+7", "abc", "99999999999999999999", " 80", "8080")
+	return r.Pick("80", "443", "65535", "65536", "70000", "0", "", "-1", "+7", "abc", "99999999999999999999", " 80", "8080")
 }
 
 func gen(r *vh.Rand) string {
